@@ -26,9 +26,14 @@ import (
 	govv1 "github.com/cosmos/cosmos-sdk/x/gov/types/v1"
 	govv1beta1 "github.com/cosmos/cosmos-sdk/x/gov/types/v1beta1"
 	stakingtypes "github.com/cosmos/cosmos-sdk/x/staking/types"
+	transfertypes "github.com/cosmos/ibc-go/v7/modules/apps/transfer/types"
+	clienttypes "github.com/cosmos/ibc-go/v7/modules/core/02-client/types"
+	channeltypes "github.com/cosmos/ibc-go/v7/modules/core/04-channel/types"
+	localhost "github.com/cosmos/ibc-go/v7/modules/light-clients/09-localhost"
 	"github.com/ethereum/go-ethereum/common"
 
 	"github.com/haqq-network/haqq/app"
+	ics20pc "github.com/haqq-network/haqq/precompiles/ics20"
 	haqqtypes "github.com/haqq-network/haqq/types"
 	coinomicstypes "github.com/haqq-network/haqq/x/coinomics/types"
 	erc20types "github.com/haqq-network/haqq/x/erc20/types"
@@ -116,6 +121,11 @@ func loadHistory(path string) (histFile, error) {
 
 // ---- generator -------------------------------------------------------------------
 
+type ibcRecvd struct {
+	pkt channeltypes.Packet
+	ack []byte
+}
+
 type histGen struct {
 	n      *vn.Node
 	rng    *rand.Rand
@@ -138,6 +148,11 @@ type histGen struct {
 	failReasons     map[string]int
 	boostRewardFees bool
 	poor            []vn.Account // accounts that staked nearly everything and pay fees out of rewards
+	// IBC loopback (two ICS-20 channel ends on this chain, connected over connection-localhost)
+	lbA, lbB   string
+	ibcPending []channeltypes.Packet
+	ibcRecvd   []ibcRecvd
+	lastRes    abci.ResponseDeliverTx
 	// governance campaign: a param-changing proposal that all validators vote for
 	campID    uint64
 	campVoted map[int]bool
@@ -188,6 +203,7 @@ func (g *histGen) cosmos(fam string, signer vn.Account, msgs ...sdk.Msg) bool {
 	}
 	g.tried[fam]++
 	res := g.n.Deliver(g.n.CosmosTx(args, signer))
+	g.lastRes = res
 	if res.Code == 0 {
 		g.ok[fam]++
 		return true
@@ -412,11 +428,13 @@ func (g *histGen) tx() {
 	val := n.Vals[rng.Intn(len(n.Vals))]
 	unit := sdkmath.NewInt(1_000_000_000_000_000)
 	amt := func(k int) sdk.Coin { return sdk.NewCoin(vn.Denom, unit.MulRaw(int64(rng.Intn(k)+1))) }
-	f := rng.Intn(40)
+	f := rng.Intn(43)
 	if g.boostRewardFees && rng.Intn(5) == 0 {
 		f = 28
 	}
 	switch {
+	case f >= 40:
+		g.ibcTx(a, b)
 	case f < 3:
 		g.cosmos("bank.send", a, banktypes.NewMsgSend(a.Addr, b.Addr, sdk.NewCoins(amt(100))))
 	case f == 3:
@@ -726,6 +744,104 @@ func (g *histGen) tx() {
 		// plain value transfer to a fresh address
 		x := g.freshAcc().Eth
 		g.eth("evm.transfer", a, &x, int64(rng.Intn(1000)+1), nil, 21000)
+	}
+}
+
+// ibcTx: one step of real IBC traffic over a loopback channel pair.
+func (g *histGen) ibcTx(a, b vn.Account) {
+	n, rng := g.n, g.rng
+	ph := clienttypes.NewHeight(1, uint64(n.Height))
+	s := a.Addr.String()
+	if g.lbA == "" {
+		next := func() string {
+			return channeltypes.FormatChannelIdentifier(n.App.IBCKeeper.ChannelKeeper.GetNextChannelSequence(n.Ctx()))
+		}
+		ca := next()
+		if !g.cosmos("ibc.chan-open-init", a, channeltypes.NewMsgChannelOpenInit("transfer", transfertypes.Version, channeltypes.UNORDERED, []string{vn.LocalConn}, "transfer", s)) {
+			return
+		}
+		cb := next()
+		if !g.cosmos("ibc.chan-open-try", a, channeltypes.NewMsgChannelOpenTry("transfer", transfertypes.Version, channeltypes.UNORDERED, []string{vn.LocalConn}, "transfer", ca, transfertypes.Version, localhost.SentinelProof, ph, s)) {
+			return
+		}
+		if !g.cosmos("ibc.chan-open-ack", a, channeltypes.NewMsgChannelOpenAck("transfer", ca, cb, transfertypes.Version, localhost.SentinelProof, ph, s)) {
+			return
+		}
+		if g.cosmos("ibc.chan-open-confirm", a, channeltypes.NewMsgChannelOpenConfirm("transfer", cb, localhost.SentinelProof, ph, s)) {
+			g.lbA, g.lbB = ca, cb
+			g.constr["ibc-loopback-channel-opened"]++
+		}
+		return
+	}
+	unit := sdkmath.NewInt(1_000_000_000_000_000)
+	switch k := rng.Intn(8); {
+	case k < 3: // send: native coin out on A, or a voucher back home on B
+		ch, coin := g.lbA, sdk.NewCoin(vn.Denom, unit.MulRaw(int64(rng.Intn(50)+1)))
+		voucher := transfertypes.ParseDenomTrace("transfer/" + g.lbB + "/" + vn.Denom).IBCDenom()
+		if vb := n.Balance(a.Addr, voucher); vb.IsPositive() && rng.Intn(2) == 0 {
+			ch, coin = g.lbB, sdk.NewCoin(voucher, sdkmath.NewIntFromBigInt(new(big.Int).Rand(rng, vb.BigInt())).AddRaw(1))
+		}
+		th, ts := clienttypes.NewHeight(1, 10_000_000), uint64(0)
+		if rng.Intn(3) == 0 {
+			th, ts = clienttypes.ZeroHeight(), uint64(n.Time.Add(time.Duration(rng.Intn(20)+1)*time.Second).UnixNano())
+		}
+		recv := b.Addr.String()
+		if rng.Intn(8) == 0 {
+			recv = "not-an-address"
+		}
+		if rng.Intn(3) == 0 && ch == g.lbA {
+			ics := n.App.EvmKeeper.Precompiles(addrICS20)[addrICS20].(*ics20pc.Precompile).ABI
+			data, err := ics.Pack("transfer", "transfer", ch, coin.Denom, coin.Amount.BigInt(), a.Eth, recv, th, ts, "memo")
+			if err != nil {
+				return
+			}
+			to := addrICS20
+			if ok, res := g.eth("ibc.transfer(ics20-precompile)", a, &to, 0, data, 600_000); ok {
+				if pkt, found := vn.PacketFromEvents(res.Events); found {
+					g.ibcPending = append(g.ibcPending, pkt)
+				}
+			}
+			return
+		}
+		if g.cosmos("ibc.transfer", a, transfertypes.NewMsgTransfer("transfer", ch, coin, s, recv, th, ts, "")) {
+			if pkt, found := vn.PacketFromEvents(g.lastRes.Events); found {
+				g.ibcPending = append(g.ibcPending, pkt)
+			}
+		}
+	case k < 5: // relay
+		if len(g.ibcPending) == 0 {
+			return
+		}
+		i := rng.Intn(len(g.ibcPending))
+		pkt := g.ibcPending[i]
+		if g.cosmos("ibc.recv-packet", a, channeltypes.NewMsgRecvPacket(pkt, localhost.SentinelProof, ph, s)) {
+			g.ibcPending = append(g.ibcPending[:i], g.ibcPending[i+1:]...)
+			if ack, found := vn.AckFromEvents(g.lastRes.Events); found {
+				g.ibcRecvd = append(g.ibcRecvd, ibcRecvd{pkt, ack})
+				if strings.Contains(string(ack), "error") {
+					g.constr["ibc-error-acknowledgement"]++
+				}
+			}
+		}
+	case k < 7:
+		if len(g.ibcRecvd) == 0 {
+			return
+		}
+		i := rng.Intn(len(g.ibcRecvd))
+		r := g.ibcRecvd[i]
+		if g.cosmos("ibc.acknowledge-packet", a, channeltypes.NewMsgAcknowledgement(r.pkt, r.ack, localhost.SentinelProof, ph, s)) {
+			g.ibcRecvd = append(g.ibcRecvd[:i], g.ibcRecvd[i+1:]...)
+		}
+	default:
+		for i, pkt := range g.ibcPending {
+			if pkt.TimeoutTimestamp != 0 && uint64(n.Time.UnixNano()) >= pkt.TimeoutTimestamp {
+				if g.cosmos("ibc.timeout-packet", a, channeltypes.NewMsgTimeout(pkt, 1, localhost.SentinelProof, ph, s)) {
+					g.ibcPending = append(g.ibcPending[:i], g.ibcPending[i+1:]...)
+					g.constr["ibc-timeout-refund"]++
+				}
+				return
+			}
+		}
 	}
 }
 
